@@ -21,7 +21,9 @@ import (
 	"time"
 
 	"github.com/zilliztech/milvus-cdc/server"
+	"google.golang.org/grpc/codes"
 
+	"verifharness/internal/fakemilvus"
 	"verifharness/internal/memq"
 	"verifharness/internal/sysboot"
 )
@@ -1159,8 +1161,23 @@ func (x *c11Exec) apiStep(st c11Step) {
 
 // restart: SIGKILL at a quiescent point (no API call in flight, ticks stopped), start a new process on the same
 // store, and compare what comes back with what was persisted at the moment of death.
-func (x *c11Exec) restart(tag string) {
+// restart kills the child at a quiescent point and starts a new one on the same store. down >= 0: that downstream
+// server answers every call with Unavailable while the new process reloads its tasks (its tasks cannot be started:
+// they must come back Paused with a reason in every view, whatever their persisted state was).
+func (x *c11Exec) restart(tag string, down int) {
 	ctx := "restart " + tag
+	if down >= 0 {
+		ctx += fmt.Sprintf(" (target %d unreachable)", down)
+		x.s.w.Targets[down].SetHook(func(call *fakemilvus.Call) *fakemilvus.Decision {
+			return fakemilvus.FailGRPC(codes.Unavailable, "injected: downstream unreachable")
+		})
+		defer x.s.w.Targets[down].SetHook(nil)
+		x.res.count("restarts_with_unreachable_target", 1)
+	}
+	onDown := func(id string) bool {
+		i, ok := x.idSlot[id]
+		return ok && down >= 0 && x.seq.Slots[i].Target == down
+	}
 	x.rs.stopPump()
 	time.Sleep(200 * time.Millisecond)
 	x.checkAcks()
@@ -1209,6 +1226,10 @@ func (x *c11Exec) restart(tag string) {
 		if r.NoAuto {
 			x.model[id] = c11Paused
 			x.res.count("restart_task_with_auto_start_disabled", 1)
+		} else if onDown(id) {
+			x.model[id] = c11Paused
+			x.res.count("restart_task_cannot_start_target_unreachable", 1)
+			x.res.dist("restart_unreachable_shapes", was)
 		} else {
 			x.model[id] = c11Running
 			x.cover(id, startClock)
@@ -1222,7 +1243,7 @@ func (x *c11Exec) restart(tag string) {
 	}
 	if pre := x.observe(); pre.err == "" {
 		for id, r := range persisted {
-			if !r.NoAuto && c11ViewsOf(pre, id)["memory"] == c11Paused && strings.HasPrefix(pre.reason[id], "fail to start task") {
+			if !r.NoAuto && !onDown(id) && c11ViewsOf(pre, id)["memory"] == c11Paused && strings.HasPrefix(pre.reason[id], "fail to start task") {
 				x.res.inconclusive = fmt.Sprintf("%s: task %s could not be started at reload: %s", ctx, id, pre.reason[id])
 				return
 			}
@@ -1236,7 +1257,7 @@ func (x *c11Exec) restart(tag string) {
 		return
 	}
 	for id, r := range persisted {
-		if r.NoAuto && o.reason[id] == "" {
+		if (r.NoAuto || onDown(id)) && o.reason[id] == "" {
 			x.violate("C11/task-paused-at-reload-without-reason", fmt.Sprintf("%s: task %s (auto start disabled) is Paused after the restart but carries no reason", ctx, id))
 		}
 		// checkpoints: every key that existed at the moment of death is still there; a task that stays paused has them untouched
@@ -1439,14 +1460,26 @@ func runC11Seq(seq *c11Seq, name string, gorTolerance int) *c11Result {
 		}
 		x.stepNo++
 		if st.Op == "restart" {
-			x.restart("in the middle")
+			x.restart("in the middle", -1)
 			continue
 		}
 		x.apiStep(st)
 	}
 	if !x.stopped && res.inconclusive == "" {
 		x.stepNo++
-		x.restart("at the end")
+		down := -1
+		if seq.Idx%2 == 0 {
+			// preferably the target of a task that is persisted as Paused (and would be started at reload)
+			for _, sl := range seq.Slots {
+				if x.model[sl.ID] == c11Paused && !sl.NoAuto {
+					down = sl.Target
+				}
+			}
+			if down < 0 && seq.Idx%4 == 2 {
+				down = 1
+			}
+		}
+		x.restart("at the end", down)
 	}
 	if !x.stopped && res.inconclusive == "" {
 		x.finish()
